@@ -113,6 +113,14 @@ def run_case(case, root):
         decls = case["parser"]
         cfg_pos = case["cfg_pos"] % (len(decls) + 1)
         for n, d in enumerate(decls + [None]):
+            if case.get("stage_at") is not None and n == case["stage_at"]:
+                # two-stage parsing: a first environment-enabled parse while only part of the arguments exists
+                try:
+                    parser.parse_env({env_name(prefix, dd["key"]): scalar_text({"scalar": 424242, "list": [424242], "dict": {"zz": 424242}}[dd["kind"]])
+                                      for dd in decls[:n]}, defaults=False)
+                except BaseException as ex:  # noqa: BLE001 - the warm-up answer is not what is observed
+                    if isinstance(ex, KeyboardInterrupt):
+                        raise
             if n == cfg_pos:
                 parser.add_argument("--cfg", action=ActionConfigFile)
             if d is not None:
